@@ -76,7 +76,9 @@ struct ActiveChord<'a, T> {
     coordinate: u16,
     /// Keys left to release.
     /// For OnFirstRelease, this should have length 0.
-    remaining_keys_to_release: HVec<u16, SMOL_Q_LEN>,
+    /// A chord can only activate with all of its keys among the queued presses,
+    /// so the capacity is the same as for those.
+    remaining_keys_to_release: HVec<u16, PRESSES_LEN>,
     /// Necessary to include here make sure that, for OnFirstRelease,
     /// random other releases that are not part of this chord,
     /// do not release this chord.
